@@ -1043,6 +1043,24 @@ func (x *Exec) evalCall(c *ECall, env *SpecEnv) (Val, error) {
 		}
 		hk, hs, _, _ := vc.mapKeys(mt)
 		return Val{T: Select(vc.heapGet(env.st, hk, hs), m.T)}, nil
+	case "valmap":
+		// valmap(m): the raw value array of map m (key -> stored value; meaningful where hasmap(m) holds)
+		if err := argN(1); err != nil {
+			return Val{}, err
+		}
+		m, err := x.evalSpec(c.Args[0], env)
+		if err != nil {
+			return Val{}, err
+		}
+		if m.Typ == nil {
+			return Val{}, fmt.Errorf("valmap() needs a map")
+		}
+		mt, ok := m.Typ.Underlying().(*types.Map)
+		if !ok {
+			return Val{}, fmt.Errorf("valmap() needs a map")
+		}
+		_, _, vk, vs := vc.mapKeys(mt)
+		return Val{T: Select(vc.heapGet(env.st, vk, vs), m.T), Typ: types.NewArray(mt.Elem(), 0)}, nil
 	case "has":
 		if err := argN(2); err != nil {
 			return Val{}, err
